@@ -1,7 +1,7 @@
 """Per-property configuration of ./check: Lean modules, correspondence streams, oracles, and the
 texts that go into MANIFEST.json (regenerate with ./mkmanifest.py)."""
 
-HOOK_COMMITS = ["42d3529", "6304aea", "b625c0d"]
+HOOK_COMMITS = ["42d3529", "6304aea", "b625c0d", "ec24054"]
 NOT_APPLICABLE = {}
 
 PROPS = {
@@ -230,6 +230,24 @@ PROPS = {
         "partial_note": "runtime part (rayon, atomics, libdeflate/zopfli determinism) is assumed as contracts R1, D2, D3 and exercised, not proved",
         "rule": "generated images x options x pool size in {1,2,3,4,8,16} x delay injection; one history per evaluator instance; tie images (1..3 px, uniform) so that "
                 "tie-breaks decide; distinct = distinct history lines / (input, options) pairs",
+    },
+    "C16": {
+        "lean": ["OxiModel.Props.C16"],
+        "streams": [{"name": "corr-sched", "quick": 80, "thorough": 1200}],
+        "oracles": [],
+        "claim": "Lean 4 theorems about the evaluator's spawn / yield / collect protocol as a transition system (jobs queued in the spawner's queue, started by the collector's yield_local or stolen by other "
+                 "workers at any time, each holding a channel sender until it finishes): PROGRESS - every reachable state that has not returned has an enabled step; a pool of ONE thread cannot deadlock - with "
+                 "all steal steps removed the collecting worker still always has a step (the spin loop runs its queued jobs; the blocking receive is entered only when nothing is left), while blocking with "
+                 "a job still queued is proved to be a stuck state (what `executed == nth` rules out); TERMINATION - every step after collection began strictly decreases 2*queued + running + phase rank, for "
+                 "every interleaving of thieves; when collection returns every job has finished (no candidate lost, nothing left in the pool). Real runs (pool sizes 1..16, 1..64 concurrent images, calls "
+                 "from a pool worker / nested par_iter / plain threads on the global pool / a plain thread, injected delays at the schedule points) are logged through the taps and every evaluator's event "
+                 "sequence must be an execution of the model ending in `returned`; a watchdog turns 90 s without progress into a failing history; the pool is reused after every case.",
+        "note": "Partial: one evaluator at a time; the composition of many nested evaluators on shared worker stacks (the timestamp argument sketched in DESIGN.md), rayon's sleep/wake protocol, OS scheduling and "
+                "the CPU burn of the spin loop are not in the theorems (R1); they are exercised by the pool-shape runs.",
+        "technique": "Lean 4 proof (progress + variant over a transition system, all interleavings) + event-log replay under many pool shapes with a watchdog",
+        "partial_note": "nested-evaluator composition and rayon internals are assumed (R1) and exercised, not proved",
+        "rule": "pool size in {1,1,2,3,4,8,16} x images in {1,2,3,5,8,17,64} x call site in {pool worker, nested par_iter, plain threads on the global pool, plain thread} x delay in {0,100,800}us; "
+                "one log per evaluator instance; distinct = distinct logs",
     },
     "C17": {
         "lean": ["OxiModel.Props.C17"],
